@@ -60,6 +60,15 @@ def run(ctx):
         if k not in seen and len(seen) < nsim:
             seen.add(k)
             scheds.append(("sim", 1, 3, s["h"]))
+    # adversarial probes: orders that the intended design does NOT allow (the exit of a child handed to the master BEFORE its registration; the gates
+    # only delay, so the real master either refuses the order - the replay diverges and the gates are opened - or follows it and must still satisfy
+    # Bound and Refill)
+    def A(a, p_): return dict(a=a, p=p_)
+    for i0, m0, h in ((1, 2, [A("spawn", 1), A("crash", 1), A("del", 1), A("add", 1)]),
+                      (2, 3, [A("spawn", 1), A("add", 1), A("spawn", 2), A("crash", 2), A("del", 2), A("add", 2)]),
+                      (2, 3, [A("spawn", 1), A("spawn", 2) if False else A("add", 1), A("spawn", 2), A("add", 2), A("crash", 1), A("del", 1), A("spawn", 3), A("crash", 3), A("del", 3), A("add", 3)]),
+                      (1, 3, [A("spawn", 1), A("crash", 1), A("add", 1), A("del", 1), A("spawn", 2), A("crash", 2), A("del", 2), A("add", 2)])):
+        scheds.append(("adv:exit-before-registration", i0, m0, h))
     # ---- (3) runs against the real master
     cases, meta = [], []
     for tag, i0, m0, h in scheds:
@@ -134,7 +143,7 @@ def run(ctx):
                evaluations=len(cases), distinct_nontrivial=len(cases),
                rule="design: TLC explores every interleaving of master / spawn-loop / worker / fault actions for init<=max<=3(4), batch 10 and 2, <=3 requests, <=1 fault (Bound, "
                     "refCount = registered + reserved, live <= refCount <= max, TimeoutIsolated); the deviation 'ascoded' is refuted in the same run and its counterexample "
-                    "schedules (%d) plus %d simulated behaviours of the intended design are REPLAYED through the H5 gates (cmd.Start and the three channel sends held and released "
+                    "schedules (%d) plus %d simulated behaviours of the intended design are (and 4 adversarial probes: the exit of a child handed over before its registration) are REPLAYED through the H5 gates (cmd.Start and the three channel sends held and released "
                     "in schedule order) into the real master with real worker processes; %d free-running randomized load runs (bursts, hung requests, crashing workers, and a late round of short requests after a quiet period longer than --timeout) over 6 "
                     "configurations, and %d storm runs (all live workers killed at the same moment, twice, while every bookkeeping step of the master is slowed down by 0-120 ms: several exit notifications arrive while the master is busy). Double faults and the liveness property Refill are model-checked (i_2_3_f2); the deviation 'lostexit' (exit notification dropped when the master is busy) is refuted by TLC. Every run: live workers (event log and /proc, sampled every 4 ms) <= max; >= init alive after the quiet period; every normal request "
                     "answered exactly once with its own token; and the complete H5 event log is validated by TLC against Trace_ZnPrefork (action, refCount, table size, "
